@@ -1,0 +1,34 @@
+//go:build verif
+
+/*
+ * Atree - Scalable Arrays and Ordered Maps
+ *
+ * Copyright Flow Foundation
+ *
+ * Licensed under the Apache License, Version 2.0 (the "License");
+ * you may not use this file except in compliance with the License.
+ * You may obtain a copy of the License at
+ *
+ *   http://www.apache.org/licenses/LICENSE-2.0
+ *
+ * Unless required by applicable law or agreed to in writing, software
+ * distributed under the License is distributed on an "AS IS" BASIS,
+ * WITHOUT WARRANTIES OR CONDITIONS OF ANY KIND, either express or implied.
+ * See the License for the specific language governing permissions and
+ * limitations under the License.
+ */
+
+package atree
+
+// Verification hooks for the pointer-level (aliasing) check of the slab storage:
+// which slab OBJECT a container handle keeps, and in-place mutation of an opaque slab.
+
+// VerifArrayRoot returns the root slab object the array handle keeps across operations.
+func VerifArrayRoot(a *Array) Slab { return a.root }
+
+// VerifMapRoot returns the root slab object the map handle keeps across operations.
+func VerifMapRoot(m *OrderedMap) Slab { return m.root }
+
+// VerifStorableSlabSet replaces the content of a StorableSlab IN PLACE (what containers do
+// to their slabs; StorableSlab itself has no mutator).
+func VerifStorableSlabSet(s *StorableSlab, storable Storable) { s.storable = storable }
